@@ -20,6 +20,9 @@ import (
 //            a real exchange must still complete (the property's precondition holds);
 //   drift  - far more than the bound flows through the router in total while only a
 //            handful are ever outstanding: nothing may fail (the accounting must not drift);
+//   dups   - more identical retransmissions than the bound of messages that are still
+//            outstanding: they are absorbed, so a real exchange must still complete
+//            (a retransmission must not take a buffer slot);
 //   above  - clearly more than the bound is outstanding: the router must have latched
 //            the documented receive-buffer-full failure (memory stays bounded).
 func RunRouterBuffer(rc *harness.RunCtx) (out harness.Outcome) {
@@ -29,7 +32,7 @@ func RunRouterBuffer(rc *harness.RunCtx) (out harness.Outcome) {
 
 func runRouterBuffer(rc *harness.RunCtx) harness.Outcome {
 	w := rc.Seed.Sub("workload").Rand()
-	scen := []string{"below", "drift", "above"}[rc.Index%3]
+	scen := []string{"below", "drift", "above", "dups"}[rc.Index%4]
 	ids := []sim.ID{11, 22, 33}
 	net := sim.NewNet(ids)
 	rt := network.NewRouter(net.Endpoint(11))
@@ -134,6 +137,34 @@ func runRouterBuffer(rc *harness.RunCtx) harness.Outcome {
 				return fail("exchange-blocked", "exchange %d did not complete", i)
 			}
 			steps++
+		}
+	case "dups":
+		held := 1 + w.IntN(4)
+		k := 10200 + w.IntN(800)
+		for i := 0; i < held; i++ {
+			if err := hand(ids[1+i%2], fmt.Sprintf("held-%d", i), []byte("kept")); err != nil {
+				return harness.Outcome{HarnessErr: err}
+			}
+		}
+		for i := 0; i < k; i++ {
+			j := i % held
+			if err := hand(ids[1+j%2], fmt.Sprintf("held-%d", j), []byte("kept")); err != nil {
+				return fail("retransmissions-consume-buffer", "after %d identical retransmissions of %d outstanding messages the router failed: %v", i, held, err)
+			}
+			steps++
+		}
+		ch := recv("real", 33)
+		if err := hand(33, "real", []byte("payload")); err != nil {
+			return fail("retransmissions-consume-buffer", "%v", err)
+		}
+		synctest.Wait()
+		select {
+		case r := <-ch:
+			if r.err != nil || string(r.m[33]) != "payload" {
+				return fail("retransmissions-consume-buffer", "after %d identical retransmissions (only %d messages outstanding, bound 10000) a real exchange failed: %v", k, held, r.err)
+			}
+		default:
+			return fail("exchange-blocked", "after %d identical retransmissions a real exchange did not complete", k)
 		}
 	case "above":
 		k := 10500 + w.IntN(500)
